@@ -553,3 +553,27 @@ def velocity_after_use_then_edit(v0, t0, m0, v0b, m1, t_query):
     a.temp_modifier = m1
     b = Ammo(None, Velocity.MPS(v0b), Temperature.Celsius(t0), m1, True)
     return (a.get_velocity_for_temp(Temperature.Celsius(t_query)), b.get_velocity_for_temp(Temperature.Celsius(t_query)))
+
+
+# ---------------------------------------------------------------------------------------
+# C18 history harnesses: the global default-step setter governs calculators created AFTERWARDS and no others
+from py_ballisticcalc.trajectory_calc import set_global_max_calc_step_size, reset_globals  # noqa: E402
+from py_ballisticcalc.interface_config import create_interface_config  # noqa: E402
+
+
+def default_step_of_a_configuration_created_after_the_setter(v):
+    """set the global default step to v feet, then create a configuration that does not name a step"""
+    set_global_max_calc_step_size(Distance.Foot(v))
+    c = create_interface_config(None)
+    reset_globals()
+    return c.max_calc_step_size_feet
+
+
+def step_of_a_configuration_created_before_the_setter(v):
+    """a configuration created before the setter is called keeps the step it was created with"""
+    c = create_interface_config(None)
+    before = c.max_calc_step_size_feet
+    set_global_max_calc_step_size(Distance.Foot(v))
+    after = c.max_calc_step_size_feet
+    reset_globals()
+    return (before, after)
